@@ -2,9 +2,12 @@
 from pyvc.api import *
 from pyvc.run import Lemma, Bounded
 from contracts.spec_common import *
+from contracts.spec_common import _xa
 from contracts.C01 import _wit_spectra
 from contracts.C03 import _wit_clean
 import pyvc.models.xr   # noqa
+import pyvc
+import pyvc.models.npshape   # noqa  (np.prod, rank-2 unravel_index, ndarray.reshape merging leading axes)
 from pyvc.values import Ref, Obj
 
 PROPERTY = "C15"
@@ -236,6 +239,626 @@ copy_then_fillna = Contract(S + "DatasetWrapper.copy", label="copy_then_fillna_o
                             ensures=[("operand_unchanged", frame(("self",)))], call=_cp_call, options={"native_call": _cp_native},
                             witness=[_wit(k) for k in KINDS])
 
+# ================================================================ selection / indexing / reduction / flattening / concatenation
+from pyvc.interp import Slice as _Slice
+
+SPECV = {"1d": (NAME_E, "a1", "b1", "a2", "b2"), "2d": (NAME_E,)}
+SCALV = ("depth", "latitude", "longitude")
+SDIMS = {"1d": (NAME_F,), "2d": (NAME_F, NAME_D)}
+
+
+def _native_spec(kw, inst):
+    out = dict(kw)
+    for k, v in kw.items():
+        if isinstance(v, dict) and "dataset" in v:
+            out[k] = native_spectrum(v)
+    return out
+
+
+def _cell(rx, ri, sx, si):
+    """cell ri of rx is cell si of sx: same missing flag, and the same value when present"""
+    rn = False if rx.nan is None else rx.nan[ri]
+    sn = False if sx.nan is None else sx.nan[si]
+    return And(iff(rn, sn), implies(Not(sn), eq(rx.arr[ri], sx.arr[si])))
+
+
+def _over_spectral(sp, fn):
+    """forall spectral index tuple"""
+    if sp.two_d:
+        return forall(0, sp.nf, lambda j: forall(0, sp.nd, lambda k: fn((j, k)), "k"), "j")
+    return forall(0, sp.nf, lambda j: fn((j,)), "j")
+
+
+def _time_of(r, idx):
+    vs = r.dataset.vars
+    if "time" in vs:
+        return vs["time"].arr[idx]
+    return r.dataset.coords["time"][idx]
+
+
+def _kind_of(a):
+    return "2d" if Spec(a.self).two_d else "1d"
+
+
+def _same_class(a, r):
+    return r._o.cls is a.self._o.cls
+
+
+def _names(kind):
+    return set(SPECV[kind]) | set(SCALV)
+
+
+def _native_vars(s):
+    return [v for v in s.dataset.data_vars if v != "time"]
+
+
+def _native_eq(x, y):
+    import numpy as np
+    x, y = np.asarray(x), np.asarray(y)
+    if x.shape != y.shape:
+        return False
+    return bool(np.array_equal(x, y, equal_nan=True) if x.dtype.kind == "f" else np.array_equal(x, y))
+
+
+def _native_member(r, s, lead_index, time_value=None):
+    """native twin: every variable of r is the lead_index-th member of the same variable of s (bitwise), same spectral coordinates, same kind"""
+    ok = type(r) is type(s) and set(_native_vars(r)) == set(_native_vars(s))
+    for v in _native_vars(s):
+        ok = ok and _native_eq(r.dataset[v].values, s.dataset[v].values[lead_index])
+    ok = ok and _native_eq(r.dataset["time"].values, s.dataset["time"].values[lead_index] if time_value is None else time_value)
+    for c in (NAME_F, NAME_D):
+        if c in s.dataset.coords:
+            ok = ok and _native_eq(r.dataset[c].values, s.dataset[c].values)
+    return bool(ok)
+
+
+def _structural(clause):
+    """a result whose layout differs from the one the clause describes (missing variable, other rank) falsifies the clause"""
+    def wrapped(a, r):
+        if not hasattr(a, "_snap"):
+            return clause(a, r)
+        try:
+            return clause(a, r)
+        except (IndexError, KeyError, AttributeError, TypeError, __import__('z3').Z3Exception):
+            return False
+    return wrapped
+
+
+def member_is(i_of):
+    """the result is member i of the operand: variance density, moments, depth, position and time of member i, on the
+    operand's spectral grid, an object of the operand's class"""
+    def clause(a, r):
+        i = i_of(a)
+        if not hasattr(r, "_o"):
+            return _native_member(r, a.self, i)
+        sp = Spec(a.self)
+        kind = _kind_of(a)
+        vs, src = r.dataset.vars, a.self.dataset.vars
+        cs = [_same_class(a, r), set(vs) - {"time"} == _names(kind)]
+        for v in SPECV[kind]:
+            cs.append(vs[v].dims == SDIMS[kind])
+            cs.append(_over_spectral(sp, lambda ix, v=v: _cell(vs[v], ix, src[v], (i,) + ix)))
+        for v in SCALV:
+            cs.append(vs[v].dims == ())
+            cs.append(_cell(vs[v], (), src[v], (i,)))
+        cs.append(eq(_time_of(r, ()), a.self.dataset.coords["time"][i]))
+        cs.append(r.dataset.coords[NAME_F]._a is a.self.dataset.coords[NAME_F]._a)
+        if sp.two_d:
+            cs.append(r.dataset.coords[NAME_D]._a is a.self.dataset.coords[NAME_D]._a)
+        return And(*cs)
+    return _structural(clause)
+
+
+def members_are(lo_of, n_of):
+    """the result holds members lo .. lo+n-1 of the operand, in order (leading dimension kept)"""
+    def clause(a, r):
+        lo, n = lo_of(a), n_of(a)
+        if not hasattr(r, "_o"):
+            import numpy as np
+            return _native_member(r, a.self, slice(int(lo), int(lo) + int(n)))
+        sp = Spec(a.self)
+        kind = _kind_of(a)
+        vs, src = r.dataset.vars, a.self.dataset.vars
+        cs = [_same_class(a, r), set(vs) - {"time"} == _names(kind)]
+        for v in SPECV[kind]:
+            cs.append(vs[v].dims == (P,) + SDIMS[kind])
+            cs.append(eq(vs[v].arr.shape[0], n))
+            cs.append(forall(0, n, lambda q, v=v: _over_spectral(sp, lambda ix: _cell(vs[v], (q,) + ix, src[v], (lo + q,) + ix)), "q"))
+        for v in SCALV:
+            cs.append(vs[v].dims == (P,))
+            cs.append(eq(vs[v].arr.shape[0], n))
+            cs.append(forall(0, n, lambda q, v=v: _cell(vs[v], (q,), src[v], (lo + q,)), "q"))
+        cs.append(forall(0, n, lambda q: eq(_time_of(r, (q,)), a.self.dataset.coords["time"][lo + q]), "q"))
+        cs.append(r.dataset.coords[NAME_F]._a is a.self.dataset.coords[NAME_F]._a)
+        return And(*cs)
+    return _structural(clause)
+
+
+REQ_SIZES = ("sizes", lambda a: And(Spec(a.self).np_ >= 0, Spec(a.self).nf >= 0, (Spec(a.self).nd >= 0) if Spec(a.self).two_d else True))
+
+
+def _p_isel_int(kind):
+    def p(mk):
+        sp = spectrum(mk, kind)
+        return _record(mk, ("self",))({"self": sp, "time": mk.int("i")})
+    return p
+
+
+isel_int = Contract(S + "DatasetWrapper.isel", label="isel_int", instances=[(k, _p_isel_int(k)) for k in KINDS],
+                    requires=[REQ_SIZES, ("index_in_range", lambda a: And(a.time >= 0, a.time < Spec(a.self).np_))],
+                    ensures=[("operand_unchanged_result_new", frame(("self",))),
+                             ("result_is_member_i", member_is(lambda a: a.time))],
+                    native=_native_spec, witness=[_wit(k, time=1) for k in KINDS])
+
+
+def _p_isel_slice(kind):
+    def p(mk):
+        sp = spectrum(mk, kind)
+        return _record(mk, ("self",))({"self": sp, "lo": mk.int("lo"), "hi": mk.int("hi")})
+    return p
+
+
+def _isel_slice_call(interp, st, fv, args):
+    return interp.call_function(st, fv, [], {"self": args["self"], "time": _Slice(args["lo"], args["hi"], None)})
+
+
+isel_slice = Contract(S + "DatasetWrapper.isel", label="isel_slice", instances=[(k, _p_isel_slice(k)) for k in KINDS],
+                      requires=[REQ_SIZES, ("slice_in_range", lambda a: And(a.lo >= 0, a.lo <= a.hi, a.hi <= Spec(a.self).np_))],
+                      ensures=[("operand_unchanged_result_new", frame(("self",))),
+                               ("result_is_members_lo_to_hi_in_order", members_are(lambda a: a.lo, lambda a: a.hi - a.lo))],
+                      call=_isel_slice_call, native=_native_spec,
+                      options={"native_call": lambda kw, inst: kw["self"].isel(time=slice(kw["lo"], kw["hi"]))},
+                      witness=[_wit(k, lo=lo, hi=hi) for k in KINDS for lo, hi in ((0, 2), (1, 1), (1, 2))])
+
+
+# ---- __getitem__: positional index (leading index, then one item per spectral dimension)
+def _full(kind):
+    return tuple(_Slice(None, None, None) for _ in SDIMS[kind])
+
+
+def _p_getitem(kind, how):
+    def p(mk):
+        sp = spectrum(mk, kind)
+        args = {"self": sp}
+        if how == "int":
+            args["i"] = mk.int("i")
+        elif how == "slice":
+            args["lo"], args["hi"] = mk.int("lo"), mk.int("hi")
+        else:
+            args["i"], args["flo"], args["fhi"] = mk.int("i"), mk.int("flo"), mk.int("fhi")
+        return _record(mk, ("self",))(args)
+    return p
+
+
+def _getitem_item(kind, how, g, sl):
+    """the index tuple, built from symbolic (sl = Slice) or native (sl = slice) parts"""
+    full = tuple(sl(None, None, None) for _ in SDIMS[kind])
+    if how == "int":
+        return (g("i"),) + full
+    if how == "slice":
+        return (sl(g("lo"), g("hi"), None),) + full
+    return (g("i"), sl(g("flo"), g("fhi"), None)) + full[1:]
+
+
+def _getitem_call(kind, how):
+    def call(interp, st, fv, args):
+        return interp.call_function(st, fv, [], {"self": args["self"], "item": _getitem_item(kind, how, lambda n: args[n], _Slice)})
+    return call
+
+
+def _getitem_native(kw, inst):
+    kind, how = inst.split(",")
+    return kw["self"][_getitem_item(kind, how, lambda n: kw[n], slice)]
+
+
+def _fband_member(a, r):
+    """[i, flo:fhi]: member i on the frequencies flo..fhi-1 (values, frequency coordinate), scalars of member i"""
+    i, flo, fhi = a.i, a.flo, a.fhi
+    if not hasattr(r, "_o"):
+        s = a.self
+        ok = type(r) is type(s)
+        for v in _native_vars(s):
+            x = s.dataset[v].values[i]
+            ok = ok and _native_eq(r.dataset[v].values, x[flo:fhi] if x.ndim else x)
+        ok = ok and _native_eq(r.dataset["time"].values, s.dataset["time"].values[i]) and _native_eq(r.dataset[NAME_F].values, s.dataset[NAME_F].values[flo:fhi])
+        return bool(ok)
+    sp = Spec(a.self)
+    kind = _kind_of(a)
+    vs, src = r.dataset.vars, a.self.dataset.vars
+    n = fhi - flo
+    cs = [_same_class(a, r), set(vs) - {"time"} == _names(kind)]
+    for v in SPECV[kind]:
+        cs.append(vs[v].dims == SDIMS[kind])
+        cs.append(eq(vs[v].arr.shape[0], n))
+        if sp.two_d:
+            cs.append(forall(0, n, lambda j, v=v: forall(0, sp.nd, lambda k: _cell(vs[v], (j, k), src[v], (i, flo + j, k)), "k"), "j"))
+        else:
+            cs.append(forall(0, n, lambda j, v=v: _cell(vs[v], (j,), src[v], (i, flo + j)), "j"))
+    for v in SCALV:
+        cs.append(_cell(vs[v], (), src[v], (i,)))
+    cs.append(eq(_time_of(r, ()), a.self.dataset.coords["time"][i]))
+    cs.append(forall(0, n, lambda j: eq(r.dataset.coords[NAME_F][j], a.self.dataset.coords[NAME_F][flo + j]), "j"))
+    return And(*cs)
+
+
+_GI_REQ = {"int": ("index_in_range", lambda a: And(a.i >= 0, a.i < Spec(a.self).np_)),
+           "slice": ("slice_in_range", lambda a: And(a.lo >= 0, a.lo <= a.hi, a.hi <= Spec(a.self).np_)),
+           "fslice": ("index_and_frequency_slice_in_range", lambda a: And(a.i >= 0, a.i < Spec(a.self).np_, a.flo >= 0, a.flo <= a.fhi, a.fhi <= Spec(a.self).nf))}
+_GI_POST = {"int": ("result_is_member_i", member_is(lambda a: a.i)),
+            "slice": ("result_is_members_lo_to_hi_in_order", members_are(lambda a: a.lo, lambda a: a.hi - a.lo)),
+            "fslice": ("result_is_member_i_on_the_selected_frequencies", _structural(_fband_member))}
+_GI_WIT = {"int": [dict(i=0), dict(i=1)], "slice": [dict(lo=0, hi=2), dict(lo=1, hi=2)], "fslice": [dict(i=1, flo=2, fhi=5), dict(i=0, flo=0, fhi=11)]}
+
+
+def _getitem_contract(how):
+    insts = [(f"{k},{how}", _p_getitem(k, how)) for k in KINDS]
+    wits = []
+    for k in KINDS:
+        for kw in _GI_WIT[how]:
+            wits.append(lambda k=k, kw=kw: (f"{k},{how}", _wit(k, **kw)()[1]))
+    c = Contract(S + "WaveSpectrum.__getitem__", label="getitem_" + how, instances=insts, requires=[REQ_SIZES, _GI_REQ[how]],
+                 ensures=[("operand_unchanged_result_new", frame(("self",))), _GI_POST[how]], native=_native_spec,
+                 options={"native_call": _getitem_native}, witness=wits)
+    # per-instance call: the item tuple depends on the kind
+    c.call = lambda interp, st, fv, args: _getitem_call("2d" if NAME_D in st.deref(_ds_ref(st, args["self"])).fields["coords"] else "1d", how)(interp, st, fv, args)
+    return c
+
+
+getitem_cs = [_getitem_contract(h) for h in ("int", "slice", "fslice")]
+
+
+# ---- reductions over the leading dimension (skipna=False, the default of the repository methods)
+def _p_reduce(kind):
+    def p(mk):
+        sp = spectrum(mk, kind)
+        return _record(mk, ("self",))({"self": sp, "dim": P})
+    return p
+
+
+def _any_missing(sx, n, ix):
+    if sx.nan is None:
+        return False
+    return exists(0, n, lambda p: sx.nan[(p,) + ix], "p")
+
+
+def _reduced(op, which):
+    """variable `which` of the result is the reduction of the operand's variable over the leading dimension, member by
+    member of the remaining (spectral) index: missing iff a contribution is missing (or, for the mean / std, there is none)"""
+    def value(sx, n, ix):
+        tot = Sum(0, n, lambda p: sx.arr[(p,) + ix])
+        if op == "sum":
+            return tot
+        m = tot / n
+        if op == "mean":
+            return m
+        return sqrt(Sum(0, n, lambda p: (sx.arr[(p,) + ix] - m) * (sx.arr[(p,) + ix] - m)) / n)
+
+    def clause(a, r):
+        if not hasattr(r, "_o"):
+            import numpy as np
+            s = a.self
+            fn = {"sum": np.sum, "mean": np.mean, "std": np.std}[op]
+            if which == "layout":
+                return bool(type(r) is type(s) and r.dataset[NAME_E].dims == s.dataset[NAME_E].dims[1:] and set(_native_vars(r)) == set(_native_vars(s))
+                            and _native_eq(r.dataset[NAME_F].values, s.dataset[NAME_F].values))
+            if which == "time":
+                t = s.dataset["time"].values.astype("datetime64[ns]").astype("int64")
+                return bool(abs(int(r.dataset["time"].values.astype("datetime64[ns]").astype("int64")) - t.mean()) <= 1)
+            if which not in s.dataset:
+                return True
+            return bool(np.allclose(r.dataset[which].values, fn(s.dataset[which].values, axis=0), rtol=1e-12, atol=1e-14, equal_nan=True))
+        sp = Spec(a.self)
+        n = sp.np_
+        kind = _kind_of(a)
+        vs, src = r.dataset.vars, a.self.dataset.vars
+        empty_missing = (n <= 0) if op != "sum" else False
+
+        def one(rx, sx, ri, ix):
+            rn = False if rx.nan is None else rx.nan[ri]
+            return And(iff(rn, Or(empty_missing, _any_missing(sx, n, ix))), implies(Not(rn), eq(rx.arr[ri], value(sx, n, ix))))
+        if which == "layout":
+            cs = [_same_class(a, r), set(vs) - {"time"} == _names(kind), r.dataset.coords[NAME_F]._a is a.self.dataset.coords[NAME_F]._a]
+            cs += [vs[v].dims == SDIMS[kind] for v in SPECV[kind]] + [vs[v].dims == () for v in SCALV]
+            return And(*cs)
+        if which == "time":
+            # the reduced dimension's coordinate is replaced by its mean
+            t = a.self.dataset.coords["time"]
+            return implies(n > 0, eq(_time_of(r, ()), Sum(0, n, lambda p: t[p]) / n))
+        if which in SCALV:
+            return one(vs[which], src[which], (), ())
+        if which not in SPECV[kind]:
+            return True
+        return _over_spectral(sp, lambda ix: one(vs[which], src[which], ix, ix))
+    return _structural(clause)
+
+
+def _reduce_contract(op):
+    ens = [("operand_unchanged_result_new", frame(("self",))), ("same_kind_same_variables_spectral_grid_kept_leading_dimension_removed", _reduced(op, "layout")),
+           ("time_is_the_mean_time", _reduced(op, "time"))]
+    ens += [(f"{v}_is_the_{op}_over_the_leading_dimension", _reduced(op, v), {"1d"} if v in SPECV["1d"][1:] else {"1d", "2d"}) for v in SPECV["1d"] + SCALV]
+    return Contract(S + "WaveSpectrum." + op, instances=[(k, _p_reduce(k)) for k in KINDS], requires=[REQ_SIZES], ensures=ens,
+                    native=_native_spec, witness=[_wit(k, dim="time") for k in KINDS])
+
+
+reduce_cs = [_reduce_contract(op) for op in ("mean", "sum", "std")]
+
+
+# ---- flatten: a (time x latitude) layout with symbolic sizes n1 x n2; C-order pairing of every spectrum with its coordinates
+LAT = "latitude"
+
+
+def _grid_spectrum(mk, kind):
+    """spectrum of the real class over two leading dimensions (time: n1, latitude: n2), both coordinates; depth and
+    longitude vary over the grid"""
+    n1, n2, nf = mk.size("n1"), mk.size("n2"), mk.size("nf")
+    f, t, la = mk.array("f", (nf,)), mk.array("time", (n1,)), mk.array("lat", (n2,))
+    lead = {P: t, LAT: la}
+    coords = {P: t, LAT: la, NAME_F: f}
+    sd, ss = (NAME_F,), (nf,)
+    if kind == "2d":
+        nd = mk.size("nd")
+        coords[NAME_D] = mk.array("theta", (nd,))
+        sd, ss = (NAME_F, NAME_D), (nf, nd)
+    vs = {}
+    for v in SPECV[kind]:
+        vs[v] = _xa(mk, (P, LAT) + sd, mk.array(v if v != NAME_E else "E", (n1, n2) + ss), mk.array(v + "_nan", (n1, n2) + ss, "bool"), coords)
+    vs["depth"] = _xa(mk, (P, LAT), mk.array("depth", (n1, n2)), mk.array("depth_nan", (n1, n2), "bool"), lead)
+    vs["longitude"] = _xa(mk, (P, LAT), mk.array("longitude", (n1, n2)), None, lead)
+    ds = mk.st.alloc(Obj("Dataset", {"vars": vs, "coords": {k: mk.st.deref(v) for k, v in coords.items()}}), "dataset")
+    return mk.instance(S + ("FrequencySpectrum" if kind == "1d" else "FrequencyDirectionSpectrum"), {"dataset": ds})
+
+
+def _p_flatten(kind):
+    def p(mk):
+        return _record(mk, ("self",))({"self": _grid_spectrum(mk, kind)})
+    return p
+
+
+def _native_grid(kw, inst):
+    import numpy as np, xarray
+    from ocean_science_utilities.wavespectra.spectrum import FrequencySpectrum, FrequencyDirectionSpectrum
+    d = kw["self"]
+    vs, cs = d["dataset"]["vars"], d["dataset"]["coords"]
+
+    def arr(x):
+        a = np.asarray(x["arr"], dtype="float64")
+        return np.where(np.asarray(x["nan"], dtype=bool), np.nan, a) if x.get("nan") is not None else a
+    two_d = NAME_D in cs
+    n1, n2 = arr(vs["depth"]).shape
+    coords = {"time": np.arange(n1).astype("datetime64[s]"), LAT: np.asarray(cs[LAT], dtype="float64"), NAME_F: np.asarray(cs[NAME_F], dtype="float64")}
+    sd = (NAME_F,)
+    if two_d:
+        coords[NAME_D] = np.asarray(cs[NAME_D], dtype="float64")
+        sd = (NAME_F, NAME_D)
+    data = {v: (("time", LAT) + sd, arr(vs[v])) for v in SPECV["2d" if two_d else "1d"]}
+    data["depth"] = (("time", LAT), arr(vs["depth"]))
+    data["longitude"] = (("time", LAT), arr(vs["longitude"]))
+    return {"self": (FrequencyDirectionSpectrum if two_d else FrequencySpectrum)(xarray.Dataset(data_vars=data, coords=coords))}
+
+
+def _wit_grid(kind, n1=3, n2=2):
+    def w():
+        import numpy as np, xarray
+        from ocean_science_utilities.wavespectra.spectrum import FrequencySpectrum, FrequencyDirectionSpectrum
+        rng = np.random.default_rng(n1 * 10 + n2)
+        f = np.array([0.03, 0.05, 0.08, 0.1, 0.2])
+        th = np.array([0.0, 90.0, 180.0, 270.0])
+        sd, ss = ((NAME_F,), (5,)) if kind == "1d" else ((NAME_F, NAME_D), (5, 4))
+        data = {v: (("time", LAT) + sd, rng.random((n1, n2) + ss)) for v in SPECV[kind]}
+        data[NAME_E][1][0, 0, 1] = np.nan
+        dep = rng.uniform(5, 100, (n1, n2))
+        dep[0, 0] = np.nan
+        data["depth"] = (("time", LAT), dep)
+        data["longitude"] = (("time", LAT), rng.uniform(-180, 180, (n1, n2)))
+        coords = {"time": (np.arange(n1) * 3600).astype("datetime64[s]"), LAT: np.linspace(-10, 10, n2), NAME_F: f}
+        if kind == "2d":
+            coords[NAME_D] = th
+        return (kind, {"self": (FrequencySpectrum if kind == "1d" else FrequencyDirectionSpectrum)(xarray.Dataset(data_vars=data, coords=coords))})
+    return w
+
+
+def _flat_sizes(a):
+    if not hasattr(a.self, "_o"):
+        return a.self.dataset["depth"].shape
+    d = a.self.dataset.vars["depth"].arr
+    return d.shape[0], d.shape[1]
+
+
+def _flatten_count(a, r):
+    if not hasattr(r, "_o"):
+        s = a.self
+        n1, n2 = s.dataset["depth"].shape
+        return bool(type(r) is type(s) and len(r) == n1 * n2 and r.dataset[NAME_E].dims[0] == "linear_index" and r.dataset[NAME_E].shape[0] == n1 * n2
+                    and _native_eq(r.dataset[NAME_F].values, s.dataset[NAME_F].values))
+    n1, n2 = _flat_sizes(a)
+    kind = _kind_of(a)
+    vs = r.dataset.vars
+    cs = [_same_class(a, r), set(vs) == set(SPECV[kind]) | {"depth", "longitude", "time", LAT},
+          r.dataset.coords[NAME_F]._a is a.self.dataset.coords[NAME_F]._a]
+    for v in SPECV[kind]:
+        cs += [vs[v].dims == ("linear_index",) + SDIMS[kind], eq(vs[v].arr.shape[0], n1 * n2)]
+    for v in ("depth", "longitude", "time", LAT):
+        cs += [vs[v].dims == ("linear_index",), eq(vs[v].arr.shape[0], n1 * n2)]
+    return And(*cs)
+
+
+def _flatten_pairing(which, form):
+    """C order: the flattened member q is the grid member unravel_index(q, (n1, n2)) = (q // n2, q % n2) [form 'unravel'];
+    equivalently the grid member (i, j) is the flattened member i*n2 + j [form 'ravel']"""
+    def clause(a, r):
+        if not hasattr(r, "_o"):
+            import numpy as np
+            s = a.self
+            n1, n2 = s.dataset["depth"].shape
+            ok = True
+            for q in range(n1 * n2):
+                i, j = (int(x) for x in np.unravel_index(q, (n1, n2)))
+                if which == "time":
+                    ok = ok and _native_eq(r.dataset["time"].values[q], s.dataset["time"].values[i])
+                elif which == LAT:
+                    ok = ok and _native_eq(r.dataset[LAT].values[q], s.dataset[LAT].values[j])
+                elif which in s.dataset:
+                    ok = ok and _native_eq(r.dataset[which].values[q], s.dataset[which].values[i, j])
+            return bool(ok)
+        sp = Spec(a.self)
+        n1, n2 = _flat_sizes(a)
+        kind = _kind_of(a)
+        vs, src = r.dataset.vars, a.self.dataset.vars
+
+        def pair(q, i, j):
+            if which == "time":
+                return eq(vs["time"].arr[q], a.self.dataset.coords["time"][i])
+            if which == LAT:
+                return eq(vs[LAT].arr[q], a.self.dataset.coords[LAT][j])
+            if which in ("depth", "longitude"):
+                return _cell(vs[which], (q,), src[which], (i, j))
+            return _over_spectral(sp, lambda ix: _cell(vs[which], (q,) + ix, src[which], (i, j) + ix))
+        if which not in SPECV[kind] and which in SPECV["1d"]:
+            return True
+        if form == "unravel":
+            return forall(0, n1 * n2, lambda q: pair(q, floordiv(q, n2), mod(q, n2)), "q")
+        return forall(0, n1, lambda i: forall(0, n2, lambda j: pair(i * n2 + j, i, j), "j"), "i")
+    return _structural(clause)
+
+
+_FLAT_VARS = SPECV["1d"] + ("depth", "longitude", "time", LAT)
+flatten_c = Contract(S + "WaveSpectrum.flatten", instances=[(k, _p_flatten(k)) for k in KINDS],
+                     requires=[("sizes", lambda a: And(_flat_sizes(a)[0] >= 0, _flat_sizes(a)[1] >= 0, Spec(a.self).nf >= 0, (Spec(a.self).nd >= 0) if Spec(a.self).two_d else True))],
+                     ensures=[("operand_unchanged_result_new", frame(("self",))),
+                              ("same_kind_one_leading_dimension_of_n1_times_n2_spectra_spectral_grid_kept", _structural(_flatten_count))] +
+                             [(f"member_q_is_grid_member_unravel_index_q.{v}", _flatten_pairing(v, "unravel"), {"1d"} if v in SPECV["1d"][1:] else {"1d", "2d"}) for v in _FLAT_VARS] +
+                             [(f"grid_member_i_j_is_member_i_times_n2_plus_j.{v}", _flatten_pairing(v, "ravel"), {"1d", "2d"}) for v in (NAME_E, "depth", "time", LAT)],
+                     native=_native_grid, witness=[_wit_grid(k, n1, n2) for k in KINDS for n1, n2 in ((3, 2), (2, 3), (1, 4))])
+
+
+# ---- concatenate N spectra along a new dimension, select the i-th: returns the i-th input
+from pyvc.values import CArr as _CArr
+import z3 as _z3
+OPS = "wavespectra/operations.py::"
+
+
+def _scalar_spectrum(mk, kind, tag, coords_spec):
+    """a single spectrum (no leading dimension) with its own density / moments / depth / position and its own time (a scalar
+    coordinate, as left by isel(time=k)), on the common spectral grid"""
+    st = mk.st
+    sd = SDIMS[kind]
+    ss = tuple(coords_spec[d].shape[0] for d in sd)
+    tcell = _CArr((), {(): _z3.Real(f"{tag}_time")})
+
+    def xa(dims, arr, nan, coords):
+        r = pyvc.models.xr.mk_xa(st, dims, arr, nan, coords)
+        st.deref(r).fields["scoords"] = {P: tcell}
+        return r
+    vs = {}
+    for v in SPECV[kind]:
+        vs[v] = xa(sd, st.deref(mk.array(f"{tag}_{v}", ss)), st.deref(mk.array(f"{tag}_{v}_nan", ss, "bool")), coords_spec)
+    vs["depth"] = xa((), _CArr((), {(): _z3.Real(f"{tag}_depth")}), _CArr((), {(): _z3.Bool(f"{tag}_depth_nan")}, "bool"), {})
+    for v in ("latitude", "longitude"):
+        vs[v] = xa((), _CArr((), {(): _z3.Real(f"{tag}_{v}")}), None, {})
+    ds = st.alloc(Obj("Dataset", {"vars": vs, "coords": {**coords_spec, P: tcell}}), "dataset")
+    return mk.instance(S + ("FrequencySpectrum" if kind == "1d" else "FrequencyDirectionSpectrum"), {"dataset": ds})
+
+
+def _p_concat(kind, N):
+    def p(mk):
+        cs = {NAME_F: mk.st.deref(mk.array("f", (mk.size("nf"),)))}
+        if kind == "2d":
+            cs[NAME_D] = mk.st.deref(mk.array("theta", (mk.size("nd"),)))
+        args = {f"s{k}": _scalar_spectrum(mk, kind, f"s{k}", cs) for k in range(N)}
+        return _record(mk, tuple(args))(args)
+    return p
+
+
+def _concat_call(interp, st, fv, args):
+    """concatenate_spectra([s0, .., s_{N-1}], dim='time') followed by isel(time=k) for every k -> (cat, sel_0, ..)"""
+    names = sorted(args)
+    cat = interp.call_function(st, fv, [], {"spectra": st.alloc([args[n] for n in names], "list"), "dim": P})
+    return (cat,) + tuple(interp.call(st, interp.getattr(st, cat, "isel"), [], {P: k}) for k in range(len(names)))
+
+
+def _concat_native(kw, inst):
+    from ocean_science_utilities.wavespectra.operations import concatenate_spectra
+    names = sorted(kw)
+    cat = concatenate_spectra([kw[n] for n in names], dim="time")
+    return (cat,) + tuple(cat.isel(time=k) for k in range(len(names)))
+
+
+def _concat_frame(a, r):
+    names = sorted(k for k in a.__dict__ if k.startswith("s") and k[1:].isdigit())
+    if hasattr(a, "_snap"):
+        st = a._snap
+        refs = list(a._result_raw)
+        ok = all(operand_unchanged(a, n) for n in names)
+        for x in refs:
+            ok = ok and all(x.id != a._raw[n].id and _ds_ref(st, x).id != a._ghost["pre_ds_" + n] for n in names)
+        return bool(ok)
+    ok = True
+    for n in names:
+        ok = ok and _values_equal_native(a.old[n] if isinstance(a.old, dict) else getattr(a.old, n), getattr(a, n))
+        ok = ok and all(x is not getattr(a, n) and x.dataset is not getattr(a, n).dataset for x in r)
+    return bool(ok)
+
+
+def _concat_select(k, which):
+    """selecting element k of the concatenation returns input k: variance density, moments, depth, position, time"""
+    def clause(a, r):
+        names = sorted(n for n in a.__dict__ if n.startswith("s") and n[1:].isdigit())
+        src = getattr(a, names[k])
+        sel = r[1 + k]
+        if not hasattr(sel, "_o"):
+            if which == "layout":
+                return bool(type(sel) is type(src) and type(r[0]) is type(src) and r[0].dataset[NAME_E].dims[0] == "time" and r[0].dataset[NAME_E].shape[0] == len(names)
+                            and _native_eq(sel.dataset[NAME_F].values, src.dataset[NAME_F].values))
+            if which not in src.dataset and which != "time":
+                return True
+            return _native_eq(sel.dataset[which].values, src.dataset[which].values)
+        sp = Spec(src)
+        kind = "2d" if sp.two_d else "1d"
+        vs, sv = sel.dataset.vars, src.dataset.vars
+        if which == "layout":
+            cat = r[0].dataset.vars
+            cs = [sel._o.cls is src._o.cls, r[0]._o.cls is src._o.cls, set(vs) == _names(kind), set(cat) == _names(kind),
+                  sel.dataset.coords[NAME_F]._a is src.dataset.coords[NAME_F]._a]
+            cs += [cat[v].dims == (P,) + SDIMS[kind] and cat[v].arr.shape[0] == len(names) and vs[v].dims == SDIMS[kind] for v in SPECV[kind]]
+            cs += [cat[v].dims == (P,) and cat[v].arr.shape[0] == len(names) and vs[v].dims == () for v in SCALV]
+            return And(*cs)
+        if which == "time":
+            return eq(_time_of(sel, ()), src.dataset.coords["time"][()])
+        if which in SCALV:
+            return _cell(vs[which], (), sv[which], ())
+        if which not in SPECV[kind]:
+            return True
+        return _over_spectral(sp, lambda ix: _cell(vs[which], ix, sv[which], ix))
+    return _structural(clause)
+
+
+def _wit_concat(kind, N):
+    def w():
+        s1, s2 = _wit_spectra()
+        s = s1 if kind == "1d" else s2
+        n = len(s.dataset["time"])
+        return (f"{kind},N={N}", {f"s{k}": s.isel(time=(k + 1) % n) for k in range(N)})
+    return w
+
+
+def _concat_contract():
+    insts = [(f"{k},N={N}", _p_concat(k, N)) for k in KINDS for N in (2, 3)]
+    ens = [("every_input_unchanged_results_new", _concat_frame)]
+    for k in range(3):
+        only = {lab for lab, _ in insts if k < int(lab.split("N=")[1])}
+        ens.append((f"select_{k}.same_kind_new_leading_dimension_of_length_N", _concat_select(k, "layout"), only))
+        for v in SPECV["1d"] + SCALV + ("time",):
+            o2 = {lab for lab in only if v in SPECV[lab.split(",")[0]] or v in SCALV or v == "time"}
+            ens.append((f"select_{k}.returns_input_{k}.{v}", _concat_select(k, v), o2))
+    return Contract(OPS + "concatenate_spectra", label="concatenate_then_select", instances=insts, ensures=ens, call=_concat_call,
+                    requires=[("sizes", lambda a: And(Spec(a.s0).nf >= 0, (Spec(a.s0).nd >= 0) if Spec(a.s0).two_d else True))],
+                    options={"native_call": _concat_native}, witness=[_wit_concat(k, N) for k in KINDS for N in (2, 3)])
+
+
+concat_c = _concat_contract()
+
+NEW = [isel_int, isel_slice] + getitem_cs + reduce_cs + [flatten_c, concat_c]
+
 def _bounded_restructure(tier, seed):
     """concatenate/select, flatten pairing, netCDF round trip and random operation sequences with bitwise operand snapshots
     (functions outside the verified subset: np.unravel_index / reshape / xarray.concat / file I/O)"""
@@ -354,8 +977,24 @@ def _bounded_restructure(tier, seed):
 
 BOUNDED = [Bounded("restructuring_and_sequences", _bounded_restructure)]
 
-CONTRACTS = [add_c, sub_c, neg_c, copy_deep, copy_shallow, bandpass_c, multiply_c, multiply_inplace, as1d_c, bandpass_then_fillna, copy_then_fillna]
+CONTRACTS = [add_c, sub_c, neg_c, copy_deep, copy_shallow, bandpass_c, multiply_c, multiply_inplace, as1d_c, bandpass_then_fillna, copy_then_fillna] + NEW
 TRUSTED = ["effect model of xarray in pyvc/models/xr.py: DataArray objects are immutable buffers (a store through .values is refused as unsupported), Dataset.__setitem__ mutates only the mapping it is called on, "
-           "copy(deep=True) allocates new buffers, copy()/assign share them, every arithmetic / selection method returns a new DataArray"]
+           "copy(deep=True) allocates new buffers, copy()/assign share them, every arithmetic / selection method returns a new DataArray",
+           "xarray.DataArray.isel / __getitem__ with an integer or a slice (step 1) on a dimension: integer drops the dimension and keeps its coordinate value as a scalar coordinate, slice keeps members lo..hi-1 in order with "
+           "the coordinate sliced alike; the result is a NEW DataArray object (real xarray returns a view of the operand's buffer: no disjointness is claimed for selections, only that the call writes nothing)",
+           "xarray.Dataset.assign collects dimension and scalar coordinates of the assigned variables; Dataset.dims = dimension names of the variables; Dataset.reset_coords(name) turns a scalar (non-index) coordinate into a data variable, ValueError for an index coordinate",
+           "xarray.DataArray.mean / sum / std(dim, skipna=False): sum resp. sum/n resp. sqrt(mean((x-mean)^2)) (ddof=0) over the named dimension, missing iff a contribution is missing (mean/std: or the dimension is empty)",
+           "xarray.concat(list of DataArrays of one layout on identical dimension coordinates, dim=new name): new leading dimension, member k = k-th argument, the arguments' scalar coordinate `dim` becomes the new dimension coordinate "
+           "(differing coordinates / concatenation along an existing dimension: unsupported -> undecided)",
+           "xarray.Dataset[name] = list of scalars: dimension coordinate `name`; Dataset[name] = DataArray brings its dimension coordinates along; an assignment that would re-align the variable to an index set from a list "
+           "(coordinate values not identical) is unsupported -> undecided (xarray re-orders / NaN-fills there)",
+           "pyvc/models/npshape.py: np.prod(tuple of ints); np.unravel_index(ind, (n1, n2)) = (ind // n2, ind % n2) with the in-range obligation; ndarray.reshape merging one or two leading axes in C order "
+           "(new[q, r] = old[q // n2, q % n2, r]; sizes must provably agree)",
+           "iteration over an instance of a repository class that defines __iter__ iterates the value returned by its __iter__"]
 EXPLANATION = ("frame conditions proved on a symbolic heap: operands keep their Dataset object, its variable bindings and buffers, nothing is assigned into them, results are new objects around new "
-               "mappings; deep copies share no buffer; in-place multiply writes only self's density; an in-place change of a result does not reach the operand")
+               "mappings; deep copies share no buffer; in-place multiply writes only self's density; an in-place change of a result does not reach the operand. "
+               "Extension: the same frame clause plus VALUE clauses for isel (integer / slice on the leading dimension), __getitem__ (leading integer / slice, frequency slice), mean / sum / std over the leading dimension "
+               "(per variable: value and missing flag; time = mean time), flatten on an n1 x n2 (time x latitude) grid with symbolic sizes (count n1*n2; flattened member q = grid member (q // n2, q % n2) and grid member (i, j) = "
+               "flattened member i*n2+j for density, moments, depth, longitude, time, latitude) and concatenate_spectra of N = 2, 3 single spectra with their own time / position / depth followed by isel(time=k): "
+               "returns input k, every input unchanged. Selections are views in real xarray: 'unchanged operand, new object' is claimed, disjointness is not. "
+               "Still bounded only: sel (nearest-label lookup), where / drop_invalid (boolean filters with reindex_like), create_1d/2d_spectrum, netCDF round trip, random operation sequences")
